@@ -241,6 +241,14 @@ func (s *sut) ambientEval(ns string, labels [][2]string) ambientResult {
 	// the keys as production computes them: the REAL buildWorkloadPolicies (fetchPeerAuthentications +
 	// convertedSelectorPeerAuthentications composed by the code under test, no AuthorizationPolicy present)
 	res.keys = ambient.VerifBuildWorkloadPolicies(krt.TestingDummyContext{}, v.authz, v.idx, v.mesh, labelsMap(labels), ns)
+	s.evalKeys(v, &res)
+	return res
+}
+
+// evalKeys: what istiod sends for the policy keys of a workload (res.keys), as ztunnel would attach it.
+func (s *sut) evalKeys(v *ambientView, resp *ambientResult) {
+	res := *resp
+	defer func() { *resp = res }()
 	sort.Strings(res.keys)
 	res.pol = "-"
 	sent := v.sent(s.root)
@@ -269,7 +277,6 @@ func (s *sut) ambientEval(ns string, labels [][2]string) ambientResult {
 			res.attached = append(res.attached, a)
 		}
 	}
-	return res
 }
 
 func (r ambientResult) denied(authenticated bool, port uint32) (bool, bool) {
@@ -363,6 +370,12 @@ func (s *sut) ambientOracle(f []string, _ string, fail func(clause, class, detai
 	ns, labels, ports := wire.Dec(f[1]), parseLabels(f[2]), parsePortList(f[3])
 	r := s.ambientEval(ns, labels)
 	l := specLevels(s.pas, s.root, ns, labels)
+	// the workload must not reference a policy that istiod does not send (judged first: what ztunnel then does
+	// with the unknown key - and so every mode mismatch below - is a consequence)
+	if r.dangling {
+		fail("ambient-no-dangling-reference", "referenced-policy-not-sent", fmt.Sprintf("keys %s policy %s", strings.Join(r.keys, ","), r.pol))
+		return
+	}
 	for _, p := range ports {
 		want := effectiveMode(s.pas, s.root, ns, labels, p) == "STRICT"
 		got, understood := r.denied(false, p)
@@ -407,14 +420,70 @@ func (s *sut) ambientOracle(f []string, _ string, fail func(clause, class, detai
 			p, want, got, strings.Join(r.keys, ","), r.pol, wlMode, portMode, l.nsMode, l.meshMode))
 		return
 	}
-	if !r.served && !r.dangling {
+	if !r.served {
 		fail("ambient-policy-served", "attached-policy-not-returned-for-its-key", strings.Join(r.keys, ","))
 		return
 	}
-	// exact on every port: the workload must still not reference a policy that istiod does not send
-	if r.dangling {
-		fail("ambient-no-dangling-reference", "referenced-policy-not-sent", fmt.Sprintf("keys %s policy %s", strings.Join(r.keys, ","), r.pol))
+}
+
+// mergedLabels: spec.labels and metadata labels of a WorkloadEntry, metadata wins (serviceentry/conversion.go).
+func mergedLabels(spec, meta [][2]string) [][2]string {
+	out := append([][2]string(nil), meta...)
+	for _, kv := range spec {
+		dup := false
+		for _, m := range meta {
+			dup = dup || m[0] == kv[0]
+		}
+		if !dup {
+			out = append(out, kv)
+		}
+	}
+	return out
+}
+
+// ambientWorkloadOracle (op aw): the policies the REAL ambient index attached to a pod / WorkloadEntry / inline
+// ServiceEntry endpoint reject an unauthenticated peer on port p iff effectiveMode for the workload's own labels
+// is STRICT - the labels the sidecar registry and EDS use for the same workload.
+func (s *sut) ambientWorkloadOracle(f []string, out string, fail func(clause, class, detail string)) {
+	kind, ns, labels, meta := f[1], wire.Dec(f[2]), parseLabels(f[3]), parseLabels(f[4])
+	k := field(out, "K")
+	if k == "" {
+		fail("ambient-workload-policies", kind+":workload-not-in-index", out)
 		return
+	}
+	own := labels
+	if kind == "we" {
+		own = mergedLabels(labels, meta)
+	}
+	v := s.ambientView()
+	var r ambientResult
+	if k != "-" {
+		r.keys = strings.Split(k, ",")
+	}
+	s.evalKeys(v, &r)
+	if r.dangling {
+		fail("ambient-no-dangling-reference", kind+":referenced-policy-not-sent", fmt.Sprintf("keys %s policy %s", k, r.pol))
+		return
+	}
+	for _, p := range queryPort {
+		want := effectiveMode(s.pas, s.root, ns, own, p) == "STRICT"
+		got, understood := r.denied(false, p)
+		if !understood {
+			fail("ambient-workload-policies", kind+":policy-shape-not-understood", r.pol)
+			return
+		}
+		if da, _ := r.denied(true, p); da {
+			fail("ambient-authenticated-accepted", kind+":authenticated-peer-rejected", fmt.Sprintf("port %d policy %s", p, r.pol))
+			return
+		}
+		if got != want {
+			class := kind + ":policies-of-other-labels"
+			if kind == "se" && (effectiveMode(s.pas, s.root, ns, meta, p) == "STRICT") == got {
+				class = "F15:serviceentry-endpoint-matched-with-resource-labels"
+			}
+			fail("ambient-workload-policies", class, fmt.Sprintf("port %d spec-strict %v rejected %v keys %s own-labels %s", p, want, got, k, encLabels(own)))
+			return
+		}
 	}
 }
 
